@@ -16,6 +16,7 @@ class Link:
         self.a, self.b, self.ssid, self.rsid = a, b, ssid, rsid
         self.fwd = list(hs)      # lines a -> b (handshake first)
         self.back = []           # lines b -> a (what b's server side pushed on the connection)
+        self.fwd_t = [0] * len(hs); self.back_t = []    # the round in which each queued line was sent (lazy schedules)
         self.alive = True
 
 class Net:
@@ -34,6 +35,11 @@ class Net:
         self.links = []          # Link objects in creation order
         self.names = {}          # node index -> name
         self.parked = []         # (node, coroutine id, site): commands waiting inside start_election
+        self.pump_rng = None     # set: PUMP order (replication loop / supervisor first) drawn per operation
+        self.round = 0           # lazy schedules: the global clock, one round = one 2 ms turn of every waiting election
+        self.park_round = {}     # (node, coroutine id) -> round in which it reached the 100 ms pause before claiming
+        self.dead = set()        # nodes that stopped: nothing is delivered to them, their commands never resume
+        self.co_sid = {}         # (node, coroutine id) -> session whose handler thread the command occupies
         self.ticks = 0           # wait-loop turns taken
         self.delivered = 0       # inter-node messages delivered (both directions)
         self.trace = []          # (kind, a, b, line) of every delivery
@@ -85,10 +91,13 @@ class Net:
         return None
 
     def op(self, i, line):
+        # the replication thread and the supervisor thread of a node run concurrently: which one gets to its queue first varies
+        if line == "PUMP" and self.pump_rng is not None and self.pump_rng.below(2) == 0: line = "PUMP sup"
         res = self.raw(f"@{i} {line}")
         for l in res:
             m = re.match(r"Y parked (\d+) (\S+)", l)
             if m:
+                if line.startswith("C "): self.co_sid[(i, int(m.group(1)))] = int(line.split(" ")[1])
                 self.parked = [p for p in self.parked if not (p[0] == i and p[1] == int(m.group(1)))] + [(i, int(m.group(1)), m.group(2))]
                 continue
             m = re.match(r"Y done (\d+)", l)
@@ -101,7 +110,7 @@ class Net:
                 me = self.names[i]
                 k = len(self.links)
                 hs = ["auth adm pw"] + ([f"set-primary {me}"] if m.group(2) == "1" else [f"set-secoundary {me}", f"replicate-since {me} {m.group(3)}"])
-                lk = Link(i, to, 100 + 2 * k, 101 + 2 * k, hs)
+                lk = Link(i, to, 100 + 2 * k, 101 + 2 * k, hs); lk.fwd_t = [self.round] * len(hs)
                 self.links.append(lk)
                 if to is None: lk.alive = False     # a peer that does not exist (or the node itself): connection refused
                 self.raw(f"@{i} LINKSESS {lk.rsid} {me}")
@@ -110,7 +119,7 @@ class Net:
             if m:
                 to = self.node_of(core.unesc(m.group(1)).decode())
                 lk = next((x for x in reversed(self.links) if x.a == i and x.b == to and x.alive), None)
-                if lk is not None: lk.fwd.append(core.unesc(m.group(2)).decode("utf-8", "replace"))
+                if lk is not None: lk.fwd.append(core.unesc(m.group(2)).decode("utf-8", "replace")); lk.fwd_t.append(self.round)
                 continue
             m = re.match(r"M (\d+) (.*)", l)
             if m:
@@ -118,7 +127,7 @@ class Net:
                 lk = next((x for x in self.links if x.b == i and x.ssid == sid and x.alive), None)
                 if lk is not None:
                     for part in core.unesc(m.group(2)).decode("utf-8", "replace").split("\n"):
-                        if part.strip(): lk.back.append(part.strip())
+                        if part.strip(): lk.back.append(part.strip()); lk.back_t.append(self.round)
         return res
 
     def reset(self, i, role, name, pid, extra="pump,sup"):
@@ -132,23 +141,27 @@ class Net:
         return r
 
     # ------------------------------------------------------------------ the network
+    def busy(self, node, sid):
+        """the connection's handler thread is inside a command that waits in start_election: the next lines of that connection wait behind it"""
+        return any(p[0] == node and self.co_sid.get((p[0], p[1])) == sid for p in self.parked)
+
     def pending(self):
         ps = []
         for k, lk in enumerate(self.links):
             if not lk.alive: continue
-            if lk.fwd: ps.append(("fwd", k))
-            if lk.back: ps.append(("back", k))
+            if lk.fwd and lk.b not in self.dead and not self.busy(lk.b, lk.ssid): ps.append(("fwd", k))
+            if lk.back and lk.a not in self.dead: ps.append(("back", k))
         return ps
 
     def deliver(self, kind, k):
         lk = self.links[k]
         if kind == "fwd":
-            line = lk.fwd.pop(0)
+            line = lk.fwd.pop(0); lk.fwd_t[:1] = []
             self.trace.append(("fwd", lk.a, lk.b, line)); self.delivered += 1
             self.op(lk.b, f"C {lk.ssid} {core.esc(line.encode())}")
             self.op(lk.b, "PUMP")
         else:
-            line = lk.back.pop(0)
+            line = lk.back.pop(0); lk.back_t[:1] = []
             self.trace.append(("back", lk.b, lk.a, line)); self.delivered += 1
             if line == "ok": return          # the reader skips the transport's ok lines
             self.op(lk.a, f"C {lk.rsid} {core.esc(line.encode())}")
@@ -164,7 +177,7 @@ class Net:
             kind, k = ps[rng.below(len(ps))] if rng is not None else ps[0]
             self.deliver(kind, k); n += 1
 
-    def settle(self, rng=None, budget=600, max_ticks=200):
+    def settle(self, rng=None, budget=int(os.environ.get("NET_BUDGET", "6000")), max_ticks=int(os.environ.get("NET_MAX_TICKS", "3000")), until=None):
         """messages are faster than the election timeout: deliver everything that can be delivered; only when nothing can,
         let one parked election take one turn of its wait loop; until nothing is in flight and nothing is parked.
         Returns False when the budget is exhausted."""
@@ -172,19 +185,61 @@ class Net:
         while True:
             n = self.quiesce(rng, budget)
             if n is None: return False
+            if until is not None and until(self): return True      # a staggered trigger: the caller injects the next event here
             if not self.parked: return True
             if self.ticks >= max_ticks or steps >= budget: return False
             node, cid, _ = self.parked[rng.below(len(self.parked))] if rng is not None else self.parked[0]
             self.op(node, f"RESUME {cid}"); self.op(node, "PUMP")
             self.ticks += 1; steps += 1
 
+    def settle_lazy(self, rng, delay=3, final_rounds=50, max_rounds=1500, until=None):
+        """message delays BELOW the election timeout, but not zero: time advances in rounds of 2 ms; in every round each deliverable
+        message is delivered or held back at random (FIFO per connection; a message is never held for more than `delay` rounds,
+        i.e. 2*delay ms < NUN_ELECTION_TIMEOUT = 10 ms), then every election waiting in one of its 2 ms loops takes exactly one turn;
+        an election in its 100 ms pause before claiming resumes `final_rounds` rounds after it got there."""
+        while True:
+            # deliveries of this round
+            n = 0
+            while True:
+                ps = self.pending()
+                if not ps or n > 400: break
+                def head_t(p): lk = self.links[p[1]]; return (lk.fwd_t if p[0] == "fwd" else lk.back_t)[0]
+                overdue = [p for p in ps if self.round - head_t(p) >= delay]
+                if overdue: kind, k = overdue[rng.below(len(overdue))]
+                elif rng.below(3) == 0: break                       # the rest waits for the next round
+                else: kind, k = ps[rng.below(len(ps))]
+                self.deliver(kind, k); n += 1
+            if until is not None and until(self): return True
+            if not self.parked and not self.pending(): return True
+            if self.round >= max_rounds: return False
+            # one turn of every waiting election, in random order
+            turn = list(self.parked)
+            for i in range(len(turn) - 1, 0, -1):
+                j = rng.below(i + 1); turn[i], turn[j] = turn[j], turn[i]
+            for (node, cid, site) in turn:
+                if not any(p[0] == node and p[1] == cid for p in self.parked): continue
+                if site.endswith("final-wait"):
+                    t0 = self.park_round.setdefault((node, cid), self.round)
+                    if self.round - t0 < final_rounds: continue
+                self.op(node, f"RESUME {cid}"); self.op(node, "PUMP"); self.ticks += 1
+            self.round += 1
+
+    def kill(self, p):
+        """node p stops at once: what it already sent may still arrive, nothing reaches it any more, its waiting commands never resume;
+        the survivors notice through `disconnect` (end-of-stream), each at its own time"""
+        self.dead.add(p)
+        self.parked = [x for x in self.parked if x[0] != p]
+        for lk in self.links:
+            if lk.alive and lk.b == p: lk.fwd = []; lk.fwd_t = []
+            if lk.alive and lk.a == p: lk.back = []; lk.back_t = []
+
     def disconnect(self, a, b):
         """the connections between a and b die: both ends see end-of-stream"""
         for lk in self.links:
             if lk.alive and ((lk.a, lk.b) == (a, b) or (lk.a, lk.b) == (b, a)):
-                lk.alive = False; lk.fwd = []; lk.back = []
-                self.op(lk.b, f"CLOSE {lk.ssid}"); self.op(lk.b, "PUMP")
-                self.op(lk.a, f"UNLINK {self.names[lk.b]}"); self.op(lk.a, "PUMP")
+                lk.alive = False; lk.fwd = []; lk.back = []; lk.fwd_t = []; lk.back_t = []
+                if lk.b not in self.dead: self.op(lk.b, f"CLOSE {lk.ssid}"); self.op(lk.b, "PUMP")
+                if lk.a not in self.dead: self.op(lk.a, f"UNLINK {self.names[lk.b]}"); self.op(lk.a, "PUMP")
 
     # ------------------------------------------------------------------ cluster formation through the real join path
     def join(self, new, via):
@@ -227,6 +282,11 @@ def canon_ops(script, outs):
         o = list(o)
         if any(x.startswith("V replicate-since-to") for x in o):
             ls = sorted(x for x in o if x.startswith("L "))
+            it = iter(ls); o = [next(it) if x.startswith("L ") else x for x in o]
+        else:
+            # lines queued on DIFFERENT connections in one operation have no order among each other (the member table is a hash map);
+            # the order on each connection is kept
+            ls = sorted((x for x in o if x.startswith("L ")), key=lambda x: x.split(" ")[1])
             it = iter(ls); o = [next(it) if x.startswith("L ") else x for x in o]
         flat.append("> " + s); flat += o
     return core.canon_case(flat)
